@@ -83,10 +83,10 @@ PROPS = {
         theorems=['C11_paused_blocks', 'C11_paused_tx_rejected', 'C11_params_owner_only', 'C11_no_unpause_with_legacy',
                   'C11_migrate_unpauses_only_when_drained', 'C11_queries_ignore_pause', 'C11_pause_cycle_identity',
                   'C11_migrate_noop_without_legacy'],
-        kernels=[], scenarios=['basic.ops', 'paramgrid.ops'], grid=True, profiles=['pause'],
+        kernels=[], scenarios=['basic.ops', 'paramgrid.ops', 'legacy.ops'], grid=True, profiles=['pause'],
         keys=['hub.'],
         ops=[r'^hub ', r'^bond ', r'^legacy_wait'],
-        assumes=['legacy wait-list entries only for user0..user7 and batch ids 1..9 (storage order = model order, PROTOCOL.md 3.1)'],
+        assumes=['legacy wait-list entries only for user0..user7 and, per history, batch ids from 1..9 or from {1, 10..19} (within each set storage order = model order, PROTOCOL.md 3.1)'],
     ),
     'C20': dict(
         props_file='Props/C20.v',
@@ -119,7 +119,7 @@ E_ENV = ['operating envelope of DESIGN.md section 4 (E1 magnitudes <= 1e18, E2 t
 
 def _hub(pid, theorems, profiles, kernels=(), extra_keys=(), assumes=()):
     return dict(props_file='Props/%s.v' % pid, theorems=list(theorems), kernels=list(kernels),
-                scenarios=['basic.ops', 'findings.ops', 'branches.ops', 'overflow.ops', 'backlog.ops', 'coverage_gaps.ops', 'queries.ops'], profiles=list(profiles), keys=HUBKEYS + list(extra_keys),
+                scenarios=['basic.ops', 'findings.ops', 'branches.ops', 'overflow.ops', 'backlog.ops', 'funds.ops', 'coverage_gaps.ops', 'queries.ops'], profiles=list(profiles), keys=HUBKEYS + list(extra_keys),
                 ops=HUBOPS, assumes=E_ENV + list(assumes))
 
 
@@ -134,16 +134,16 @@ PENDING = {
     'C08': _hub('C08', [], ['unbond', 'general'], extra_keys=['hub.params', 'hub.qparams']),
     'C09': dict(_hub('C09', [], ['exit'], extra_keys=['env']), probe=True),
     'C13': _hub('C13', [], ['registry'], kernels=['deleg'], extra_keys=['rg.']),
-    'C14': dict(props_file='Props/C14.v', theorems=[], kernels=['drewards'], scenarios=['basic.ops', 'findings.ops', 'branches.ops', 'overflow.ops', 'queries.ops'],
+    'C14': dict(props_file='Props/C14.v', theorems=[], kernels=['drewards'], scenarios=['basic.ops', 'findings.ops', 'branches.ops', 'overflow.ops', 'funds.ops', 'queries.ops'],
                 profiles=['rewards', 'token'], keys=['rw.', 'bank reward', 'm bank reward', 'm wasm bsei reward', 'm wasm disp reward', 'tok.bsei'],
                 ops=[r'^reward ', r'^cw bsei', r'^hub \S+ updateglobal', r'^bond b', r'^inst_reward'], assumes=E_ENV),
-    'C15': dict(props_file='Props/C15.v', theorems=[], kernels=['drewards'], scenarios=['basic.ops', 'findings.ops', 'branches.ops', 'overflow.ops', 'queries.ops'],
+    'C15': dict(props_file='Props/C15.v', theorems=[], kernels=['drewards'], scenarios=['basic.ops', 'findings.ops', 'branches.ops', 'overflow.ops', 'funds.ops', 'queries.ops'],
                 profiles=['rewards', 'token'], keys=['rw.', 'bank reward', 'm wasm bsei reward', 'm wasm disp reward', 'tok.bsei'],
                 ops=[r'^reward ', r'^cw bsei', r'^hub \S+ updateglobal', r'^bond b'], assumes=E_ENV),
     'C16': dict(props_file='Props/C16.v', theorems=[], kernels=[], scenarios=['basic.ops', 'findings.ops', 'branches.ops', 'overflow.ops', 'token.ops', 'queries.ops'],
                 profiles=['token', 'general'], keys=['rw.holder', 'rw.state', 'rw.qholders', 'rw.qstate', 'tok.bsei', 'm wasm bsei', 'm wasm hub bsei'],
                 ops=[r'^cw bsei', r'^bond b', r'^reward \S+ (inc|dec)'], assumes=E_ENV + ['bSei instantiated without initial balances']),
-    'C19': dict(props_file='Props/C19.v', theorems=[], kernels=['swapinfo'], scenarios=['basic.ops', 'findings.ops', 'branches.ops', 'overflow.ops'],
+    'C19': dict(props_file='Props/C19.v', theorems=[], kernels=['swapinfo'], scenarios=['basic.ops', 'findings.ops', 'branches.ops', 'overflow.ops', 'funds.ops'],
                 profiles=['rewards'], keys=HUBKEYS + ['m ', 'bank ', 'pend', 'rw.', 'dp.'],
                 ops=[r'^hub \S+ updateglobal', r'^reg \S+ remove', r'^accrue'], assumes=E_ENV + ['swap and oracle stubs of PROTOCOL.md section 4 (E7)']),
 }
